@@ -7,5 +7,5 @@ for m in $names; do
   o=$(tools/try_mutant.sh seeded/$m quick $p 2>&1 | tail -1)
   nv=$(echo "$o" | sed -n 's/.*; \([0-9]*\) VIOLATION.*/\1/p')
   nf=$(echo "$o" | grep -o "no-failing-input-found" | wc -l)
-  echo "$m viol=$nv $(echo "$o" | grep -q 'input-' && echo concrete-input || echo no-input) | $(echo "$o" | cut -c1-120)"
+  echo "$m viol=$nv $(echo "$o" | grep -q 'replays/[A-Za-z0-9]*-input-' && echo concrete-input || echo no-input) | $(echo "$o" | cut -c1-120)"
 done
